@@ -131,13 +131,20 @@ def fixDelNode (ni n prevLen : Nat) : CPos → CPos
 
 def mapCurs (f : CPos → CPos) (d : Db K V) : Db K V := { d with curs := d.curs.map fun (c, p) => (c, f p) }
 
+/-- `_sblk_genlevel`: a drawn level is lowered until the level below it is populated
+    (`db->lcnt[l]` = number of nodes whose level is exactly `l`) -/
+def clampLvl (ns : List (Node K V)) : Nat → Nat
+  | 0 => 0
+  | l + 1 => if ns.any (·.lvl = l) then l + 1 else clampLvl ns l
+
 inductive PutOut where
   | ok | exists_
 deriving Repr, BEq, DecidableEq
 
 /-- `_lx_put_lw` / `_lx_addkv` for a plain put of value `v` (flag handling sits above, see `Api`).
     `lvl` = level drawn for a node this put may create. Returns the old value when the key existed. -/
-def put (d : Db K V) (k : K) (v : V) (noOverwrite : Bool) (lvl : Nat) : Db K V × PutOut × Option V :=
+def put (d : Db K V) (k : K) (v : V) (noOverwrite : Bool) (lvlReq : Nat) : Db K V × PutOut × Option V :=
+  let lvl := clampLvl d.nodes lvlReq
   let r := routeIdx gt k d.nodes
   if r = 0 then
     -- lower is the database block: pnum = 32, idx = 32, never "found"
